@@ -273,6 +273,31 @@ def coupler(ctx, lay1=(2,), lay2=(0, 1), kind="euler"):
     ctx.prove("coupler clock records the step", ctx.all([len(c.time) == 2, ctx.eq(c.time[-1], tnew)]))
 
 
+def coupler_clock(ctx, kind="euler"):
+    """real Coupler.solve on two models of which one was advanced on its own before (its current time t1 > 0; the Coupler's docstring
+    allows that): every model is advanced from ITS current time by the requested duration, with increasing times"""
+    t1 = ctx.real("t_modelA", (0.5, 3.0)); ctx.assume(t1 > 0)
+    sim = ctx.real("simTime", (0.5, 2.0)); ctx.assume(sim > 0)
+    xs = [ctx.reals("xa", 1, (-1.0, 1.0)), ctx.reals("xb", 2, (-1.0, 1.0))]
+    log = {0: [], 1: []}
+
+    class M(GenericModel):
+        def __init__(self_, idx, t): self_.idx = idx; self_.t = t
+        def setup(self_): pass
+        def getCurrentX(self_): return self_.t, [xs[self_.idx]]
+        def getdXdt(self_, t, x): return [x[0] * 0.0]
+        def getDt(self_, dXdt): return sim * 100.0
+        def postProcess(self_, t, x): log[self_.idx].append(t); self_.t = t; return x, False
+    a, b = M(0, t1), M(1, 0.0)
+    c = Coupler([a, b])
+    c.solve(sim, solverType=KIND[kind])
+    ctx.prove("one accepted step when the models propose more than the duration", len(log[0]) == 1 and len(log[1]) == 1)
+    if len(log[0]) == 1 and len(log[1]) == 1:
+        ctx.prove("the model that starts at 0 ends at the requested duration", ctx.eq(log[1][-1], sim))
+        ctx.prove("a model advanced on its own before coupling continues from its own time (t1 + duration, never backwards)",
+                  ctx.all([ctx.eq(log[0][-1], t1 + sim), ctx.lt(t1, log[0][-1])]))
+
+
 _F = [DESolver.solve, DESolver._getdXdt, DESolver._updateX, ExplicitEulerIterator, RK4Iterator, GenericModel.solve, GenericModel.setTimeInfo,
       GenericModel.flattenX, GenericModel.unflattenX, Coupler.flattenX, Coupler.unflattenX, Coupler.getDt, Coupler.getdXdt, Coupler.postProcess]
 _lays = [l for n in (1, 2, 3) for l in itertools.product((0, 1, 2, 3), repeat=n)]
@@ -297,6 +322,9 @@ HARNESSES = [
                     "thorough": [{"kind": "rk4", "nmax": 3}, {"kind": "euler", "nmax": 4}]}),
     Harness("C05.entry", entry, functions=_F, assumptions=["real arithmetic"],
             params={"quick": [{"kind": "euler"}, {"kind": "rk4"}], "thorough": [{"kind": "euler"}, {"kind": "rk4"}]}),
+    Harness("C05.coupler_clock", coupler_clock, functions=_F + [Coupler.solve if hasattr(Coupler, "solve") else GenericModel.solve],
+            assumptions=["real arithmetic; the models propose more than the duration (one accepted step)"],
+            params={"quick": [{"kind": "euler"}], "thorough": [{"kind": "euler"}, {"kind": "rk4"}]}),
     Harness("C05.entry_twice", entry_twice, functions=_F, assumptions=["real arithmetic", "0.3 <= maxDtFrac <= 1 (at most 4 steps per call)", "the model proposes more than any allowed step"],
             bounds={"solve calls": 2}, params={"quick": [{"kind": "euler"}], "thorough": [{"kind": "euler"}, {"kind": "rk4"}]}),
     Harness("C05.layout", layout, functions=_F, bounds={"layouts": "<= 3 entries, each a scalar or a 1-D array of length <= 3 (enumerated)"},
